@@ -1,292 +1,97 @@
 /-
-  C06/C07 — minimal typed-value model for the SOAP client (import-free; linked into the driver).
-
-  * `TypeRow` is one row of `const.STATE_VARIABLE_TYPE_MAPPING` in the shapes the translator
-    (`tools/gen_c06types.py`) recognises; the table itself is `Gen/C06Types.lean`.
-  * `PyVal` is the Python value a caller supplies / the decoder returns.  Integers, booleans and
-    strings are modelled exactly.  Floats are opaque text (`repr`) plus their exact value as a
-    rational (`float.as_integer_ratio`) so that `Range`/`In` can be evaluated; dates / times /
-    datetimes are opaque text (`isoformat()`), second precision.  Text → float and text → date/time
-    (`float()`, `parse_date_time`) are *oracles* (`Oracles`): parameters of the model, hypotheses
-    in the theorems, tables filled from the real primitives in the driver.
-  * `schemaOk` is the `vol.All(type, [require_tzinfo], [In], [Range])` chain built by
-    `client_factory._state_variable_create_schema`.
+  C06/C07 — the typed values of the SOAP client ARE C08's (round 3): Python values `C08.Val`,
+  the generated type table `Gen.C08Types.table` (all 26 rows of
+  `const.STATE_VARIABLE_TYPE_MAPPING`, the `parse_date_time` matcher table, the tz guard),
+  `C08.coerceUpnp` / `C08.coercePython`, and the validation schema `C08.mkSchema` /
+  `C08.Schema.check` (`client_factory._state_variable_create_schema`).  This file only fixes the
+  float carrier, names the instances, and defines the exceptions of the request path.
+  Dates, times and date-times are fully modelled (no oracle any more); floats stay abstract:
+  `Oracles` = `C08.FloatOps Fl` (what Python's `repr` / `float()` / comparisons give), arbitrary in
+  the theorems (with C08's single assumption `RoundTrips` where needed), a table filled from the
+  real primitives in the driver.  Import-free (core only).
 -/
+import Upnp.Gen.C08Types
 namespace Upnp.C06
 
 abbrev Str := List Char
 
-inductive PyType | int | float | str | bool | date | datetime | time
+/-- a float as an exact ratio (`float.as_integer_ratio`, sign kept so that `-0.0` is distinct) -/
+inductive Fl
+  | fin (neg : Bool) (num den : Nat)
+  | inf (neg : Bool)
+  | nan
 deriving DecidableEq, Repr
 
-/-- shape of the `"in"` coercer (UPnP text → Python) -/
-inductive InShape
-  | int | float | str | dateTime
-  | boolIn (yes : List Str)          -- `lambda s: s.lower() in [...]`
-deriving DecidableEq, Repr
+/-- Python `a <= b` on floats (`nan` compares false) -/
+def Fl.le : Fl → Fl → Bool
+  | .nan, _ => false
+  | _, .nan => false
+  | .inf true, _ => true
+  | _, .inf false => true
+  | .inf false, _ => false
+  | _, .inf true => false
+  | .fin n a b, .fin n' a' b' =>
+      let x : Int := if n then -(Int.ofNat (a * b')) else Int.ofNat (a * b')
+      let y : Int := if n' then -(Int.ofNat (a' * b)) else Int.ofNat (a' * b)
+      x ≤ y
+def Fl.eq (a b : Fl) : Bool := Fl.le a b && Fl.le b a
 
-/-- shape of the `"out"` coercer (Python → UPnP text) -/
-inductive OutShape
-  | str                              -- `str`
-  | strInt                           -- `str(int(v))`
-  | boolOut (t f : Str)              -- `lambda b: t if b else f`
-  | iso0                             -- `v.isoformat()`
-  | isoTSec                          -- `v.isoformat("T", "seconds")`
-  | isoSec                           -- `v.isoformat("seconds")`
-deriving DecidableEq, Repr
+abbrev PyVal := Upnp.C08.Val Fl
+abbrev TypeRow := Upnp.C08.TypeRow
+abbrev PyType := Upnp.C08.PyType
 
-structure TypeRow where
-  name : Str
-  ty : PyType
-  needTz : Bool                      -- `"validator": require_tzinfo`
-  inn : InShape
-  out : OutShape
-deriving DecidableEq, Repr
+/-- the float primitives (`repr`, `float()`, `<=`, `==`): the only oracle left -/
+abbrev Oracles := Upnp.C08.FloatOps Fl
 
-/-- exact value of a Python float -/
-inductive FNum
-  | fin (num : Int) (den : Nat)      -- num/den, den > 0
-  | pinf | ninf | nan
-deriving DecidableEq, Repr
+/-- the type table generated from the source -/
+abbrev table : Upnp.C08.Table := Gen.C08Types.table
 
-inductive DtClass | date | datetime | time
-deriving DecidableEq, Repr
+/-- `UpnpStateVariable.coerce_python` -/
+abbrev coercePython (O : Oracles) (row : TypeRow) (text : Str) : Except Upnp.C08.Err PyVal :=
+  Upnp.C08.coercePython O table row text
 
-inductive PyVal
-  | int (n : Int)
-  | bool (b : Bool)
-  | str (s : Str)
-  | float (repr : Str) (x : FNum)
-  | dt (cls : DtClass) (aware : Bool) (iso : Str)   -- second precision; `iso = v.isoformat()`
-  | none
-  | other (tag : Str)                               -- any other Python object
-deriving DecidableEq, Repr
+/-- `UpnpStateVariable.coerce_upnp` -/
+abbrev coerceUpnp (O : Oracles) (row : TypeRow) (v : PyVal) : Except Upnp.C08.Err Str :=
+  Upnp.C08.coerceUpnp O row v
 
-/-- exceptions the modelled code can raise -/
+def lowerStr (s : Str) : Str := Upnp.C08.lowerStr s
+
+/-- exceptions the modelled request path can raise -/
 inductive Exc
-  | upnpError | upnpValueError | valueError | typeError
+  | upnpError | upnpValueError
+  | raw (e : Upnp.C08.Err)          -- a non-library exception out of a coercer
   | unmodelled (why : String)
 deriving DecidableEq, Repr
+
+def errTok : Upnp.C08.Err → String
+  | .valueError => "RAW:ValueError"
+  | .typeError => "RAW:TypeError"
+  | .indexError => "RAW:IndexError"
+  | .attributeError => "RAW:AttributeError"
+  | .unmodelled => "UNMODELLED:c08"
+  | .other => "RAW:other"
 
 def Exc.tok : Exc → String
   | .upnpError => "UpnpError"
   | .upnpValueError => "UpnpValueError"
-  | .valueError => "RAW:ValueError"
-  | .typeError => "RAW:TypeError"
+  | .raw e => errTok e
   | .unmodelled w => "UNMODELLED:" ++ w
 
-/-! ### Python `int()` on text and `str()` of an int -/
-
-/-- `Py_UNICODE_ISSPACE` -/
-def isPySpace (c : Char) : Bool :=
-  let n := c.toNat
-  (9 ≤ n && n ≤ 13) || (28 ≤ n && n ≤ 32) || n == 0x85 || n == 0xa0 || n == 0x1680
-  || (0x2000 ≤ n && n ≤ 0x200a) || n == 0x2028 || n == 0x2029 || n == 0x202f || n == 0x205f
-  || n == 0x3000
-
-def lstrip (s : Str) : Str := s.dropWhile isPySpace
-def strip (s : Str) : Str := (lstrip (lstrip s).reverse).reverse
-
-def digitVal (c : Char) : Option Nat :=
-  if '0' ≤ c ∧ c ≤ '9' then some (c.toNat - 48) else none
-
-/-- decimal digits with single underscores between digits -/
-def parseNatAux : Str → Nat → Bool → Option Nat
-  | [], acc, pd => if pd then some acc else none
-  | c :: r, acc, pd =>
-    if c = '_' then (if pd then parseNatAux r acc false else none)
-    else match digitVal c with
-      | some d => parseNatAux r (acc * 10 + d) true
-      | none => none
-
-/-- Python `int(s)` for ASCII digits (non-ASCII decimal digits are outside the model) -/
-def pyInt? (s : Str) : Option Int :=
-  match strip s with
-  | '+' :: r => (parseNatAux r 0 false).map Int.ofNat
-  | '-' :: r => (parseNatAux r 0 false).map fun n => - Int.ofNat n
-  | r => (parseNatAux r 0 false).map Int.ofNat
-
-def digitChar (d : Nat) : Char := Char.ofNat (48 + d)
-
-def natDigits (n : Nat) : Str :=
-  if _h : n < 10 then [digitChar n] else natDigits (n / 10) ++ [digitChar (n % 10)]
-decreasing_by omega
-
-/-- Python `str(n)` for an int -/
-def decOfInt : Int → Str
-  | .ofNat n => natDigits n
-  | .negSucc n => '-' :: natDigits (n + 1)
-
-/-! ### text helpers -/
-
-def asciiLower (c : Char) : Char :=
-  if 'A' ≤ c ∧ c ≤ 'Z' then Char.ofNat (c.toNat + 32) else c
-
-def lowerStr (s : Str) : Str := s.map asciiLower
-
-/-! ### numeric view, Python `==`, `<=` -/
-
-def PyVal.num? : PyVal → Option FNum
-  | .int n => some (.fin n 1)
-  | .bool b => some (.fin (if b then 1 else 0) 1)
-  | .float _ x => some x
-  | _ => Option.none
-
-/-- Python `a <= b` on numbers (`nan` compares false) -/
-def FNum.le : FNum → FNum → Bool
-  | .nan, _ => false
-  | _, .nan => false
-  | .ninf, _ => true
-  | _, .pinf => true
-  | .pinf, _ => false
-  | _, .ninf => false
-  | .fin a b, .fin c d => decide (a * d ≤ c * b)
-
-def FNum.eq : FNum → FNum → Bool
-  | .fin a b, .fin c d => decide (a * d = c * b)
-  | .pinf, .pinf => true
-  | .ninf, .ninf => true
-  | _, _ => false
-
-/-- Python `==` between the values of the model -/
-def pyEq (a b : PyVal) : Bool :=
-  match a.num?, b.num? with
-  | some x, some y => FNum.eq x y
-  | _, _ =>
-    match a, b with
-    | .str s, .str t => s == t
-    | .dt c a i, .dt c' a' i' => c == c' && a == a' && i == i'
-    | .none, .none => true
-    | _, _ => false
-
-/-- `isinstance(v, T)` with `bool ⊑ int`, `datetime ⊑ date` -/
-def isInstance (v : PyVal) (t : PyType) : Bool :=
-  match v, t with
-  | .int _, .int => true
-  | .bool _, .int => true
-  | .bool _, .bool => true
-  | .float _ _, .float => true
-  | .str _, .str => true
-  | .dt .date _ _, .date => true
-  | .dt .datetime _ _, .date => true
-  | .dt .datetime _ _, .datetime => true
-  | .dt .time _ _, .time => true
-  | _, _ => false
-
-/-! ### coercers -/
-
-/-- the primitives that stay outside the model: `float(text)` and `parse_date_time(text)`;
-    outer `none` = the table has no entry (driver only), inner `none` = `ValueError` -/
-structure Oracles where
-  parseFloat : Str → Option (Option PyVal)
-  parseDt : Str → Option (Option PyVal)
-
-def coercePython (O : Oracles) (row : TypeRow) (text : Str) : Except Exc PyVal :=
-  match row.inn with
-  | .int => match pyInt? text with
-      | some n => .ok (.int n)
-      | none => .error .valueError
-  | .str => .ok (.str text)
-  | .boolIn yes => .ok (.bool (yes.contains (lowerStr text)))
-  | .float => match O.parseFloat text with
-      | some (some v) => .ok v
-      | some none => .error .valueError
-      | none => .error (.unmodelled "float-oracle")
-  | .dateTime => match O.parseDt text with
-      | some (some v) => .ok v
-      | some none => .error .valueError
-      | none => .error (.unmodelled "dt-oracle")
-
-def truthy : PyVal → Bool
-  | .int n => n != 0
-  | .bool b => b
-  | .str s => !s.isEmpty
-  | .float _ x => !(FNum.eq x (.fin 0 1))
-  | .none => false
-  | _ => true
-
-def coerceUpnp (row : TypeRow) (v : PyVal) : Except Exc Str :=
-  match row.out, v with
-  | .str, .int n => .ok (decOfInt n)
-  | .str, .bool b => .ok (if b then "True".toList else "False".toList)
-  | .str, .str s => .ok s
-  | .str, .float r _ => .ok r
-  | .str, .none => .ok "None".toList
-  | .str, _ => .error (.unmodelled "str()")
-  | .strInt, .int n => .ok (decOfInt n)
-  | .strInt, .bool b => .ok (if b then ['1'] else ['0'])
-  | .strInt, _ => .error (.unmodelled "int()")
-  | .boolOut t f, v => .ok (if truthy v then t else f)
-  | .iso0, .dt _ _ iso => .ok iso
-  | .isoTSec, .dt .datetime _ iso => .ok iso
-  | .isoTSec, .dt _ _ _ => .error .typeError
-  | .isoSec, .dt .time _ iso => .ok iso
-  | .isoSec, .dt _ _ _ => .error .typeError
-  | _, _ => .error (.unmodelled "isoformat")
-
-/-! ### the validation schema -/
-
-/-- what a state variable declares (texts as they stand in the SCPD) -/
+/-- what a state variable declares: its row of the type table and the declaration texts -/
 structure VarDecl where
   row : TypeRow
-  min : Option Str := none
-  max : Option Str := none
-  hasRange : Bool := false           -- `<allowedValueRange>` present
-  allowed : Option (List Str) := none
+  decl : Upnp.C08.Decl := {}
 deriving Repr
 
-def awareOf : PyVal → Bool
-  | .dt _ a _ => a
-  | _ => true
+/-- the schema the factory builds for the variable (`none` = the factory itself would have raised:
+    a declared bound / allowed value its own `in` coercer refuses) -/
+def schemaOf (O : Oracles) (strict : Bool) (d : VarDecl) : Option (Upnp.C08.Schema Fl) :=
+  match Upnp.C08.mkSchema O table d.row strict d.decl with
+  | .ok sc => some sc
+  | .error _ => none
 
-/-- coerce declared texts with the `in` coercer; `none` = the factory would have raised -/
-def coerceAll (O : Oracles) (row : TypeRow) : List Str → Option (List PyVal)
-  | [] => some []
-  | t :: r => match coercePython O row t, coerceAll O row r with
-      | .ok v, some vs => some (v :: vs)
-      | _, _ => Option.none
-
-def leVal (a b : PyVal) : Bool :=
-  match a.num?, b.num? with
-  | some x, some y => FNum.le x y
-  | _, _ => false
-
-/-- `min_ = in_coercer(min_) if min_ else None` -/
-def boundOf (O : Oracles) (row : TypeRow) : Option Str → Option (Option PyVal)
-  | Option.none => some Option.none
-  | some [] => some Option.none
-  | some t => match coercePython O row t with
-      | .ok v => some (some v)
-      | .error _ => Option.none
-
-/-- `vol.In(allowed)`; `none` = a declared allowed value the factory cannot coerce -/
-def allowedOk (O : Oracles) (d : VarDecl) (v : PyVal) : Option Bool :=
-  match d.allowed with
-  | Option.none => some true
-  | some [] => some true
-  | some l => (coerceAll O d.row l).map fun vs => vs.any (pyEq v)
-
-/-- `vol.Range(min, max)`; `none` = a bound the factory cannot coerce, or a range on a
-    non-numeric value (outside the model) -/
-def rangeOk (O : Oracles) (d : VarDecl) (v : PyVal) : Option Bool :=
-  if !d.hasRange then some true
-  else match boundOf O d.row d.min, boundOf O d.row d.max with
-    | some lo, some hi =>
-      if (lo.isSome || hi.isSome) && v.num?.isNone then Option.none
-      else some ((match lo with | some m => leVal m v | Option.none => true)
-                 && (match hi with | some m => leVal v m | Option.none => true))
-    | _, _ => Option.none
-
-/-- `vol.All(type, [require_tzinfo], [In(allowed)], [Range(min, max)])`, evaluated in order;
-    `none` = outside the model -/
+/-- `UpnpStateVariable.validate_value`: `self._schema(value)` passes -/
 def schemaOk (O : Oracles) (strict : Bool) (d : VarDecl) (v : PyVal) : Option Bool :=
-  if !isInstance v d.row.ty then some false
-  else if d.row.needTz && !awareOf v then some false
-  else if !strict then some true
-  else
-    match allowedOk O d v with
-    | Option.none => Option.none
-    | some false => some false
-    | some true => rangeOk O d v
+  (schemaOf O strict d).map fun sc => sc.check O v
 
 end Upnp.C06
